@@ -127,7 +127,7 @@ prop(
     rule="(a) component stress: 1-32 goroutines drive the real ActiveScenario.Run / RecordDroppedIteration with random outcome plans (thousands of records each) "
          "while 1-3 goroutines loop Result.SnapshotProgress; then GetTotals; oracle = extracted predicate c01_ok on (plan counts, result totals, exported sample counts); "
          "(b) whole runs (users/constant/staged) with a goroutine forcing snapshots through the run's Result; (c) sequential op sequences of Stats.Record/Snapshot/Total "
-         "compared exactly with the sequential model; the scenario logger rotates between f1's discard logger, one with every level enabled and one with no level enabled; failing bodies fail through Fail, FailNow, panics, Errorf and a testify assertion; non-trivial = at least one snapshot ran concurrently with recorded iterations (a,b) / >= 2 snapshots in the sequence (c); distinct = distinct cases",
+         "compared exactly with the sequential model; the scenario logger rotates between f1's discard logger, one with every level enabled and one with no level enabled; failing bodies fail through Fail, FailNow, panics, Errorf and a testify assertion; (d) the pool conservation histories and the whole runs through the ticking goroutine (C02 (a)-(d)) with rapid back-to-back ticks and a burst superseded at the very end of a run; non-trivial = at least one snapshot ran concurrently with recorded iterations (a,b) / >= 2 snapshots in the sequence (c); distinct = distinct cases",
     assumptions=["sync/atomic operations are sequentially consistent; one model step per atomic/lock operation",
                  "Result.mu serialises collectors (modelled as a lock); GetTotals runs after all iterations completed",
                  "prometheus SummaryVec.Observe increments the sample count atomically (modelled as one step)",
@@ -150,11 +150,12 @@ prop(
     id="C06",
     stages=C06_STAGES + [dict(name="c06run", pkg="c06", test="TestC06Run", access=[WORKERS_ACCESS, RUN_ACCESS], timeout_quick=300, timeout_thorough=3000),
                          dict(name="c06file", pkg="c06", test="TestC06FileCleanups", access=[WORKERS_ACCESS, RUN_ACCESS], timeout_quick=300, timeout_thorough=3000),
-                         dict(name="c06teardown", pkg="c06", test="TestC06FileTeardown", access=[WORKERS_ACCESS, RUN_ACCESS], timeout_quick=300, timeout_thorough=3000)],
+                         dict(name="c06teardown", pkg="c06", test="TestC06FileTeardown", access=[WORKERS_ACCESS, RUN_ACCESS], timeout_quick=300, timeout_thorough=3000),
+                         dict(name="c06slowsetup", pkg="c06", test="TestC06SlowSetup", access=[WORKERS_ACCESS, RUN_ACCESS], timeout_quick=300, timeout_thorough=3000)],
     rule="generated scenario programs (cleanup tables of 0-5 cleanups that log, fail, panic or register; bodies/setups of 0-7 actions: register, Fail/Error/Errorf, "
          "FailNow/Fatal/Fatalf/require, panic with error/runtime error/string/int/struct, marks) executed (a) by the real ActiveScenario.Setup/Run on one worker handle, "
          "event log and per-iteration recorded outcome compared exactly with the model; (b) through whole Run.Do runs (users/constant x limit/duration/cancel) for the setup/teardown "
-         "lifecycle, plus a harness-side check that no body starts after the setup cleanups ran; (d) config files with a users or constant stage followed by a constant stage with iterations of 120-260 ms: nothing is in flight when the setup cleanups run nor at return; non-trivial = a body that registers cleanups and then stops by FailNow/panic (a) / "
+         "lifecycle, plus a harness-side check that no body starts after the setup cleanups ran; (d) config files with a users or constant stage followed by a constant stage with iterations of 120-260 ms: nothing is in flight when the setup cleanups run nor at return; (e) runs interrupted while their setup is still sleeping (longer than the completion timeout): setup finishes, all its cleanups run in reverse order before the return; non-trivial = a body that registers cleanups and then stops by FailNow/panic (a) / "
          "a program with a non-empty cleanup table (b); distinct = distinct programs",
     assumptions=["scenario code follows the documented contract (FailNow only from the iteration goroutine, no runtime.Goexit)",
                  "recover() semantics of Go; runtime errors implement error",
@@ -167,7 +168,7 @@ prop(
                          dict(name="c07late", pkg="c07", test="TestC07LateMark", access=[WORKERS_ACCESS, RUN_ACCESS], timeout_quick=300, timeout_thorough=3000)],
     rule="(a) as C06 (a): per-iteration outcomes of generated bodies on one worker vs the model's classification, T.Failed() at body entry must be false; "
          "(b) whole runs in every trigger mode with per-iteration-id outcome plans (pass, each failure API, require assertion, panics with error/string/int/struct/runtime error): "
-         "planned counts vs Result totals vs exported sample counts through the extracted predicate c01_ok; non-trivial = body that fails or panics; distinct = distinct programs/plans",
+         "planned counts vs Result totals vs exported sample counts through the extracted predicate c01_ok; every fourth whole run has iterations that mark the scenario's own handle failed while others are in flight; non-trivial = body that fails or panics; distinct = distinct programs/plans",
     assumptions=["scenario code follows the documented contract", "recover() semantics of Go"],
 )
 
@@ -217,7 +218,7 @@ prop(
          "(thorough: every string of up to 4 symbols for ParseRate), constructor argument tuples (valid and invalid distributions, frequencies <= 0, weights), config ASTs with any subset "
          "of fields present in the default section and in each stage, all modes, zero/negative numbers, emitted as YAML and parsed by the real ParseConfigFile at interesting instants; "
          "outcome class and accepted value compared exactly with the model; Go library ports (ParseDuration, Atoi, TrimSpace) compared primitive by primitive; "
-         "separate malformed stream: random bytes and mutated documents must not panic; non-trivial = rate with a '/' / multi-stage string / any constructor tuple / config with stage-start and >= 2 stages; distinct = distinct inputs",
+         "separate malformed stream: random bytes and mutated documents must not panic; stage c14cli: the run command with flag values at the ends of their types; non-trivial = rate with a '/' / multi-stage string / any constructor tuple / config with stage-start and >= 2 stages; distinct = distinct inputs",
     assumptions=["YAML decoding (gopkg.in/yaml.v3) and cobra/pflag are library code: the model starts at the decoded value; arbitrary bytes are covered only by the crash-freedom stream",
                  "strconv.ParseFloat on the gaussian weights is a library oracle (weights_ok)",
                  "strings.TrimSpace is modelled for ASCII white space; generated stages strings contain no U+0085/U+00A0",
@@ -316,7 +317,7 @@ prop(
     id="C04",
     stages=[POOL_STAGE, GATE_STAGE, dict(name="c04runs", pkg="c02", test="TestC04Runs", access=[WORKERS_ACCESS, POOL_ACCESS, RUN_ACCESS], timeout_quick=300, timeout_thorough=3000)],
     rule="scenario-side atomic in-flight counter with high-water mark and a live set of *T pointers (duplicate insert = shared handle) in (a) the pool histories of C02, (b) whole runs of constant, staged, ramp, gaussian and users triggers "
-         "with concurrency 1-16 whose first iterations only return once `concurrency` of them overlap (rendezvous, 3s timeout = not all workers usable); oracle = extracted predicate c04_ok; config files of users stages only (long iterations) and of a users stage with its own concurrency followed by a saturated constant stage (per-stage in-flight by stage parameter); non-trivial = rendezvous runs; distinct = distinct observations" + GATE_RULE,
+         "with concurrency 1-16 whose first iterations only return once `concurrency` of them overlap (rendezvous, 3s timeout = not all workers usable); oracle = extracted predicate c04_ok; config files of users stages only (long iterations) and of a users stage with its own concurrency followed by a saturated constant stage (per-stage in-flight by stage parameter); every third iteration of the whole runs registers a cleanup from inside a cleanup, and a second rendezvous 60 ms into the run requires all workers to be usable still; non-trivial = rendezvous runs; distinct = distinct observations" + GATE_RULE,
     assumptions=["in the model worker i owns handle i by construction; handle identity in the code is observed, not modelled", "file mode is outside the statement (consecutive stages' pools may overlap)"],
 )
 
@@ -355,7 +356,7 @@ prop(
          "(instant, sleeping, blocked until after the end, never finishing with a short completion timeout): returns within its bound (30s watchdog), no body starts after the return, every started body finished at the return "
          "unless the timeout expired, no start after the deadline (+60ms), goroutine-leak check; oracle = extracted predicate c05_ok; (a') the calls the progress reporter and Run.Do make on the shared Result while a run is triggering, replayed against each other 150000 (thorough 1.5 million) times: a recursive read lock would wedge them; (b) gate script on sources instrumented from the working tree: the progress runner is parked "
          "just before dispatching a due tick and released when main is between the nested read locks of the final rendering; the run must still return; the sync-op listing of the functions the run-level model covers is "
-         "compared with the committed one; config files with 4 s stages and a small limit (limit only / then max-duration / then cancel): the run returns shortly after its last iteration; non-trivial = anything but (instant bodies, max-duration); distinct = distinct observations",
+         "compared with the committed one; config files with 4 s stages and a small limit (limit only / then max-duration / then cancel): the run returns shortly after its last iteration; the runner stage of C18 (Stop and cancellation against a function that is executing) is run for C05 too; non-trivial = anything but (instant bodies, max-duration); distinct = distinct observations",
     assumptions=["sync.RWMutex is writer-preferring (a pending Lock blocks new RLocks), as documented", "Go timers never fire early; wall-clock punctuality is the runtime's (one-sided checks with slack)",
                  "the worker pool is an abstract 'all workers exited' event at run level; its own progress is C05_pool_progress",
                  "termination is shown as deadlock-freedom plus environment obligations, not by a ranking function"],
@@ -368,3 +369,7 @@ for _pid, _lst in GLUE.items():
 # both executed and reported dropped shows as started + dropped > requested
 PROPS["C01"]["stages"] = PROPS["C01"]["stages"] + [POOL_STAGE] + [st for st in PROPS["C02"]["stages"] if st["name"] == "c02runs"]
 PROPS["C01"]["drift"] = PROPS["C01"]["drift"] + TRIGGER_GLUE
+
+# the progress reporter's quiescence after Stop (no progress reported after the run returned, no
+# goroutine left) is the runner's: the runner stage of C18 also decides that part of C05
+PROPS["C05"]["stages"] = PROPS["C05"]["stages"] + [st for st in PROPS["C18"]["stages"] if st["name"] == "c18"]
